@@ -44,8 +44,8 @@ Definition spec32_step (cfg : rcfg) (o : rop) (outs : list rout) (p d : amap pen
                     (p_counter (snd e) <=? r_retries cfg)) d &&
   (* an index is registered exactly for the pending handshakes that built their stage 0 *)
   same_set di (map (fun e => p_id (snd e)) (filter (fun e => p_ready (snd e)) d)) &&
-  (* a pending handshake disappears only by completion, restart, or a timer tick after all its attempts, and
-     then it sends nothing in that step *)
+  (* a pending handshake disappears only by completion, restart, or in a timer tick (after all its attempts:
+     [timing_step]) *)
   forallb (fun e =>
      match mget (fst e) d with
      | Some e' => if N.eqb (p_id e') (p_id (snd e)) then
@@ -58,7 +58,9 @@ Definition spec32_step (cfg : rcfg) (o : rop) (outs : list rout) (p d : amap pen
      | None =>
          match o with
          | RComplete a => N.eqb a (fst e)
-         | RTick _ => (r_retries cfg <=? p_counter (snd e)) && negb (existsb (is_send_of (p_id (snd e))) outs)
+         | RTick _ => true     (* checked in [timing_step] for handshakes with a single timer entry *)
+         | RTrigger a => N.eqb a (fst e) && (r_retries cfg <=? p_counter (snd e)) &&
+                         negb (existsb (is_send_of (p_id (snd e))) outs)
          | _ => false
          end
      end) p &&
@@ -106,7 +108,7 @@ Record tstate := mkT { t_last : option Z; t_seen : list N; t_clean : amap (Z * Z
 Definition counter_of (m : amap pent) (a : N) : option Z :=
   match mget a m with Some e => Some (p_counter e) | None => None end.
 
-Definition timing_step (cfg : rcfg) (o : rop) (p d : amap pent) (t : tstate) : tstate * bool :=
+Definition timing_step (cfg : rcfg) (o : rop) (outs : list rout) (p d : amap pent) (t : tstate) : tstate * bool :=
   let I := r_interval cfg in
   match o with
   | RStart a _ | RCache a _ =>
@@ -131,8 +133,14 @@ Definition timing_step (cfg : rcfg) (o : rop) (p d : amap pent) (t : tstate) : t
                       | _, _ => false
                       end in
          if fired then
-           (* not early; re-armed with the new counter *)
-           ((n + m * I <? now),
+           (* not early; one more attempt and re-armed with the new counter, or - after exactly [retries] attempts -
+              given up without sending anything *)
+           ((n + m * I <? now) &&
+            match mget a p, counter_of d a with
+            | Some e, Some c' => (c' =? p_counter e + 1) && (p_counter e <? r_retries cfg)
+            | Some e, None => (r_retries cfg <=? p_counter e) && negb (existsb (is_send_of (p_id e)) outs)
+            | None, _ => true
+            end,
             match counter_of d a with Some c' => Some (a, (now, c')) | None => None end)
          else
            (* not late: it must not be overdue *)
@@ -148,7 +156,7 @@ Record wstate := mkW { w_model : rstate; w_pend : amap pent; w_idx : list N; w_t
 Definition walk_step (cfg : rcfg) (w : wstate) (b : robs) : wstate * list N :=
   let (m', om) := rstep cfg (q_op b) (w_model w) in
   let e1 := flag 1 (routs_eqb om (q_outs b) && pend_eqb (pend m') (q_pend b) && same_set (ridx m') (q_idx b)) in
-  let (t', tok) := timing_step cfg (q_op b) (w_pend w) (q_pend b) (w_t w) in
+  let (t', tok) := timing_step cfg (q_op b) (q_outs b) (w_pend w) (q_pend b) (w_t w) in
   let e2 := flag 2 (spec32_step cfg (q_op b) (q_outs b) (w_pend w) (q_pend b) (w_idx w) (q_idx b) && tok) in
   (mkW m' (q_pend b) (q_idx b) t', e1 ++ e2).
 
